@@ -90,6 +90,9 @@ func (r *scriptReader) Read(p []byte) (int, error) {
 	return n, nil
 }
 
+// maxBlindMoves bounds the moves over unpeeked bytes per history (set from the tier).
+var maxBlindMoves = 1
+
 // ---- operations ----
 
 type slOp struct {
@@ -159,6 +162,7 @@ type slModel struct {
 	mark   int // start at the previous ShiftLen call
 	peeked []bool
 	ledger []ledgerEntry
+	blind  int // moves over bytes that had not been peeked at (bounded like reader deviations)
 }
 
 type slRun struct {
@@ -204,9 +208,15 @@ func (m *slModel) enabled(o slOp) bool {
 		if o.n < 0 {
 			return m.pos+o.n >= m.start
 		}
+		// moving over bytes that have not been peeked at yet is allowed (Shift, Lexeme and Skip fetch them), moving
+		// past the end of the data is not; such blind moves are deviations from the canonical peek-then-move use
+		// and are bounded per history
+		if m.pos+o.n > len(m.E) {
+			return false
+		}
 		for i := m.pos; i < m.pos+o.n; i++ {
-			if i >= len(m.E) || !m.peeked[i] {
-				return false
+			if !m.peeked[i] {
+				return m.blind < maxBlindMoves
 			}
 		}
 		return true
@@ -246,6 +256,12 @@ func (r *slRun) step(c *engine.Ctx, o slOp, ctxs func() string) bool {
 			return fail("PeekRune", "got (%U,%d) want (%U,%d)", gr, gn, wr, wn)
 		}
 	case 'm':
+		for i := m.pos; i < m.pos+o.n; i++ {
+			if !m.peeked[i] {
+				m.blind++
+				break
+			}
+		}
 		z.Move(o.n)
 		m.pos += o.n
 	case 'w':
@@ -253,9 +269,15 @@ func (r *slRun) step(c *engine.Ctx, o slOp, ctxs func() string) bool {
 		m.pos = m.start + o.n
 	case 's':
 		z.Skip()
+		for i := m.start; i < m.pos; i++ {
+			m.peeked[i] = true
+		}
 		m.start = m.pos
 	case 'h':
 		got := z.Shift()
+		for i := m.start; i < m.pos; i++ {
+			m.peeked[i] = true
+		}
 		want := m.E[m.start:m.pos]
 		if !bytes.Equal(got, want) {
 			return fail("Shift", "got %q want %q", got, want)
@@ -266,6 +288,9 @@ func (r *slRun) step(c *engine.Ctx, o slOp, ctxs func() string) bool {
 		m.start = m.pos
 	case 'l':
 		got := z.Lexeme()
+		for i := m.start; i < m.pos; i++ {
+			m.peeked[i] = true
+		}
 		want := m.E[m.start:m.pos]
 		if !bytes.Equal(got, want) {
 			return fail("Lexeme", "got %q want %q", got, want)
@@ -386,6 +411,7 @@ func (r *slRun) key() string {
 	put(m.pos)
 	put(m.freed)
 	put(m.mark)
+	put(m.blind)
 	for i := 0; i < len(m.E); i++ {
 		if m.peeked[i] {
 			b = append(b, 1)
@@ -492,6 +518,9 @@ func c13Explore(c *engine.Ctx, in []byte, args map[string]string) {
 	cf := slConfigFrom(in, args)
 	depth, _ := strconv.Atoi(args["depth"])
 	maxDevs, _ := strconv.Atoi(args["devs"])
+	if b, err := strconv.Atoi(args["blind"]); err == nil {
+		maxBlindMoves = b
+	}
 	prefix := decodeOps(args["prefix"])
 	if args["replay-ops"] != "" {
 		// direct replay of one history (used by minimised counterexamples)
@@ -683,6 +712,7 @@ func c13Work(c *engine.Ctx) {
 	sizes := []int{0, 1, 2, 3, 4, 5, 8, -1}
 	depth := c.Pick(7, 9)
 	devs := c.Pick(2, 3)
+	maxBlindMoves = c.Pick(1, 2)
 	if !c.Thorough() {
 		datas = []string{"", "a", "abc", "abcdef", "abcdefghij", "abc\u00e9f", "ab\u20acde", "a\U0001F600bc"}
 		sizes = []int{0, 1, 2, 3, 4, 8, -1}
@@ -716,7 +746,7 @@ func c13Work(c *engine.Ctx) {
 					if !c.Mine(k) {
 						continue
 					}
-					args := map[string]string{"size": strconv.Itoa(size), "fail": strconv.Itoa(f), "prefix": encodeOps(p), "depth": strconv.Itoa(depth), "devs": strconv.Itoa(devs)}
+					args := map[string]string{"size": strconv.Itoa(size), "fail": strconv.Itoa(f), "prefix": encodeOps(p), "depth": strconv.Itoa(depth), "devs": strconv.Itoa(devs), "blind": strconv.Itoa(maxBlindMoves)}
 					c.Exec(sp, []byte(d), args)
 					c.Count("exec", 1)
 					c.Count("distinct_nontrivial", 1)
